@@ -178,6 +178,17 @@ def groups(tier, seed):
                     cs.append({'roots': [[first[0], a, b, m], [second[0], None, None, m]]})
                     cs.append({'roots': [[first[0], None, None, m], ['in:w:only', None, None, None], [second[0], a, b, m]]})
     yield {'tree': same, 'layer': 'same-tail-roots', 'cases': cs}
+    # a root spelled through another root of the list (a, a/../b; a/x, a/x/../y): disjoint places, both searched, in both orders
+    thru = {'a': D({'a1': F(1), 'x': D({'x1': F(1), 'xx': D({'x2': F(1)})}), 'y': D({'y1': F(1)})}), 'b': D({'b1': F(1), 'bd': D({'b2': F(1)})}), 'ab': D({'c1': F(1)})}
+    cs = []
+    for first, second in ((['sub:a'], ['thru:a:b']), (['sub:a'], ['thru:a:ab']), (['sub:a/x'], ['thru:a/x:a/y']), (['sub:a/x'], ['thru:a/x:b']), (['sub:a'], ['thru:a/x:b']),
+                          (['sub:b'], ['thru:b:a/x']), (['thru:b:a'], ['thru:a:b'])):
+        for one, two in ((first, second), (second, first)):
+            for m in (None, 'dfs'):
+                for (a, b) in ((None, None), (None, 1), (2, None), (1, 2)):
+                    cs.append({'roots': [[one[0], None, None, m], [two[0], a, b, m]]})
+                    cs.append({'roots': [[one[0], a, b, m], [two[0], None, None, None]]})
+    yield {'tree': thru, 'layer': 'roots-through-roots', 'cases': cs}
     # attribute columns in the select list, entries above the depth window, files next to directories, several roots
     att = {'a': F(1), 'b': D({'b1': F(1), 'bd': D({'b2': F(1), 'be': D({'b3': F(1)})})}), 'c': F(2), 'd': D({'d1': F(1), 'dd': D({'d2': F(1)})}), 'e': F(3),
            'r2': D({'z': F(1), 'y': D({'y1': F(1), 'yy': D({'y2': F(1)})})})}
@@ -308,6 +319,9 @@ def root_arg(spec, holder):
     if r.startswith('absin:'):      # the absolute spelling of <path>, from inside <cwdsub>
         _, cwdsub, path_ = r.split(':', 2)
         return os.path.join(holder, 'real', 't', path_), 'c:' + cwdsub, path_
+    if r.startswith('thru:'):       # <b> spelled through <a>: real/t/<a>/..[/..]/<b>
+        _, a_, b_ = r.split(':', 2)
+        return 'real/t/' + a_ + '/..' * len(a_.split('/')) + '/' + b_, 'h', b_
     if r.startswith('bare:'):       # the bare name of a top-level directory, from inside the tree
         return r[5:], 't', r[5:]
     if r == 'slash':
